@@ -1,6 +1,7 @@
 (* C18 — deck and published tables are complete and duplicate-free. *)
 From CKC Require Import Base.Prelude Base.Reflect Base.Combs Spec.Layout Model.Deck Proofs.CardBase.
 From CKC Require Import Gen.Consts Gen.Decks.
+From CKC Require Export Proofs.SlotTables.
 Open Scope N_scope.
 
 (* spec of the preset starting-hand tables: higher card first *)
@@ -13,11 +14,6 @@ Definition SPEC_AKs := two_table 12 11 N.eqb.
 Definition SPEC_AKo := two_table 12 11 (fun a b => negb (a =? b)).
 Definition SPEC_AQs := two_table 12 10 N.eqb.
 Definition SPEC_AQo := two_table 12 10 (fun a b => negb (a =? b)).
-
-Definition slots (n : N) : list N := N_range n.
-Definition SPEC_2_OF_4 := combs (slots 4) 2.
-Definition SPEC_5_OF_6 := combs (slots 6) 5.
-Definition SPEC_5_OF_7 := combs (slots 7) 5.
 
 Lemma deck_ok : POKER_DECK = SPEC_DECK /\ length POKER_DECK = 52%nat /\ NoDup POKER_DECK /\ DECK_LEN = 52 /\ DECK_SIZE = 52.
 Proof.
@@ -46,24 +42,10 @@ Proof.
   rewrite nth_overflow; [reflexivity|]. lia.
 Qed.
 
-Definition table_ok (t spec : list (list N)) (n : nat) : Prop :=
-  NoDup t /\ (forall r, In r t <-> In r spec) /\ length t = n.
-
-Lemma table_okb t spec n : same_rows t spec = true -> length t = n -> table_ok t spec n.
-Proof. intros H Hl. destruct (same_rows_spec _ _ H) as [H1 H2]. exact (conj H1 (conj H2 Hl)). Qed.
-
 Lemma presets_ok :
   table_ok TWO_AA SPEC_AA 6 /\ table_ok TWO_AK SPEC_AK 16 /\
   table_ok TWO_AKs SPEC_AKs 4 /\ table_ok TWO_AKo SPEC_AKo 12 /\
   table_ok TWO_AQs SPEC_AQs 4 /\ table_ok TWO_AQo SPEC_AQo 12.
 Proof. repeat match goal with |- _ /\ _ => split end; apply table_okb; vm_compute; reflexivity. Qed.
 
-Lemma slot_tables_ok :
-  table_ok OMAHA_PERMUTATIONS SPEC_2_OF_4 6 /\ Forall (fun r => strictly_increasing r = true) OMAHA_PERMUTATIONS /\
-  table_ok SIX_PERMUTATIONS SPEC_5_OF_6 6 /\ Forall (fun r => strictly_increasing r = true) SIX_PERMUTATIONS /\
-  table_ok SEVEN_PERMUTATIONS SPEC_5_OF_7 21 /\ Forall (fun r => strictly_increasing r = true) SEVEN_PERMUTATIONS.
-Proof.
-  repeat match goal with |- _ /\ _ => split end;
-    try (apply table_okb; vm_compute; reflexivity);
-    apply Forall_forall; apply forallb_forall; vm_compute; reflexivity.
-Qed.
+
